@@ -649,3 +649,25 @@ def external_signature(dotted_module: str, cls: Optional[str], func: str) -> Lis
                 names = names[1:]
             return names
     raise AnalysisError(f"third-party callable not found: {dotted_module}.{cls + '.' if cls else ''}{func}")
+
+
+def external_init_signature(dotted_module: str, cls: str) -> List[str]:
+    """Parameter names of cls.__init__, looked up through the base classes that
+    are defined in the same third-party module (no import, ast only)."""
+    tree = external_module(dotted_module)
+    classes = {n.name: n for n in tree.body if isinstance(n, ast.ClassDef)}
+    seen = set()
+    work = [cls]
+    while work:
+        c = work.pop(0)
+        if c in seen or c not in classes:
+            continue
+        seen.add(c)
+        for n in classes[c].body:
+            if isinstance(n, ast.FunctionDef) and n.name == "__init__":
+                names = [a.arg for a in n.args.posonlyargs + n.args.args] + [a.arg for a in n.args.kwonlyargs]
+                return names[1:]
+        for b in classes[c].bases:
+            if isinstance(b, ast.Name):
+                work.append(b.id)
+    raise AnalysisError(f"third-party constructor not found: {dotted_module}.{cls}.__init__")
